@@ -495,7 +495,8 @@ package mpb
 
 //@ func (barStyle).Build
 //@   props    C07 C02
-//@   loop 1   invariant bf != nil && len(bf.tip.frames) == len(s.tipFrames) && s.tipFrames == old(s.tipFrames)
+//@   loop 1   modifies elems(bf.tip.frames)
+//@   loop 1   invariant bf != nil && fresh(bf) && fresh(bf.tip.frames) && len(bf.tip.frames) == len(s.tipFrames) && s.tipFrames == old(s.tipFrames)
 //@   loop 1   invariant forall(j, 0, rangeindex + 1, bf.tip.frames[j].width == dw(bf.tip.frames[j].bytes))
 //@   loop 1   invariant forall(i, 0, components, bf.components[i].width == dw(bf.components[i].bytes) && bf.meta[i] != nil)
 //@   ensures  result != nil
@@ -587,7 +588,7 @@ package mpb
 //@   requires s.buffers[0] != nil && s.buffers[1] != nil && s.buffers[2] != nil
 //@   requires s.buffers[0] != s.buffers[1] && s.buffers[0] != s.buffers[2] && s.buffers[1] != s.buffers[2]
 //@   requires drained: dw(written(s.buffers[0])) == 0 && dw(written(s.buffers[1])) == 0 && dw(written(s.buffers[2])) == 0
-//@   requires 0 <= stat.AvailableWidth && stat.AvailableWidth <= 1<<31
+//@   requires 0 <= stat.AvailableWidth && stat.AvailableWidth <= 1<<31 && stat.RequestedWidth <= 1<<31
 //@   requires forall(i, 0, len(s.decorGroups[0]), s.decorGroups[0][i] != nil) && forall(i, 0, len(s.decorGroups[1]), s.decorGroups[1][i] != nil)
 //@   modifies written(s.buffers[0]), written(s.buffers[1]), written(s.buffers[2]), content(), pkgstate("decor"), sent("chan int"), recvd("chan int"), bFiller.tip, sFiller.count
 //@   loop 1   modifies written(s.buffers[0]), written(s.buffers[1])
@@ -832,7 +833,7 @@ package mpb
 //@              ==> len(pushes) == iter(len(pushes)) + 1 && pushes[len(pushes) - 1].bar == b && !pushes[len(pushes) - 1].sync && popCount == iter(popCount)
 //@   loop 1   ensures successor@C17,C05,C06: frame.shutdown == 1 && iter(has(s.queueBars, now(b)))
 //@              ==> len(pushes) == iter(len(pushes)) + 1 && pushes[len(pushes) - 1].bar == iter(s.queueBars[now(b)]) && pushes[len(pushes) - 1].sync
-//@                  && pushes[len(pushes) - 1].bar.priority == b.priority && !has(s.queueBars, b)
+//@                  && pushes[len(pushes) - 1].bar.priority == iter(now(b).priority) && b.priority == iter(now(b).priority) && !has(s.queueBars, b)
 //@   loop 1   ensures retired@C17: (frame.shutdown == 1 ==> b.retired) && (frame.shutdown != 1 ==> b.retired == iter(now(b).retired))
 //@   loop 1   ensures slot@C17: frame.shutdown != 1 ==> mapdom(s.queueBars) == iter(mapdom(s.queueBars)) && mapval(s.queueBars) == iter(mapval(s.queueBars))
 //@   loop 1   ensures toppop@C18,C06,C05: frame.shutdown == 1 && !iter(has(s.queueBars, now(b))) && s.popCompleted && !frame.noPop
@@ -849,6 +850,7 @@ package mpb
 //@   loop 1   ensures shown@C18: frame.shutdown == 2 && s.popCompleted && !frame.noPop ==> len(rows) - iter(len(rows)) == len(frame.rows)
 //@   loop 1   ensures nopoponkeep@C18: !(frame.shutdown == 2 && s.popCompleted && !frame.noPop) ==> popCount == iter(popCount)
 //@   loop 2   invariant forall(k, 0, len(pushes), pushes[k].bar != nil) && !closed(s.hm)
+//@   loop 2   invariant dropfirst@C15,C02: closed(s.iterDrop) // the manager is still offering the next bar and takes no request until the drop is signalled: pushing first can block for ever
 //@   loop 3   invariant -1 <= i && i < len(frame.rows) && usedRows >= 0 && len(rows) <= height
 //@   loop 3   invariant len(rows) == entry(3, len(rows)) + usedRows && usedRows == min(len(frame.rows) - 1 - i, height - entry(3, len(rows)))
 //@   loop 3   invariant frame == entry(3, frame) && frame != nil && frame.rows == entry(3, frame.rows) && b == entry(3, b)
@@ -866,8 +868,8 @@ package mpb
 //@   ensures  flushed@C04,C18,C13: result == nil ==> called("(*Writer).Flush") == old(called("(*Writer).Flush")) + 1 && calledWith("(*Writer).Flush", 1) == len(rows) - popCount
 //@   ensures  allpushed@C05: result == nil ==> called("(heapManager).push") == old(called("(heapManager).push")) + len(pushes)
 //@   ensures  errdrop@C15: closed(s.iterDrop) ==> result != nil && called("(*Writer).Flush") == old(called("(*Writer).Flush"))
-//@   ensures  once@C15,C02: result == nil ==> !closed(s.iterDrop)
-//@   ensures  open@C02: !closed(s.hm)
+//@   ensures  once: result == nil ==> !closed(s.iterDrop)
+//@   ensures  open: !closed(s.hm)
 //@   ensures  parkedstill: forall(k, has(s.queueBars, k) ==> s.queueBars[k] != nil)
 
 // Options: what a container option / bar option may write (checked for every built-in option
@@ -936,10 +938,12 @@ package mpb
 //@   ensures  parkedstill: forall(k, has(ps.queueBars, k) ==> ps.queueBars[k] != nil)
 
 //@ func unwrap
-//@   props    C14 C19 C02
+//@   props    C14 C19 C02 C20
 //@   requires d != nil
 //@   modifies nothing
 //@   ensures  result != nil
+//@   ensures  innermost@C14,C19,C20: !hasType(result, "decor.Wrapper") // however deeply wrapped: what comes out wraps nothing
+//@   ensures  same@C14,C19,C20: !hasType(d, "decor.Wrapper") ==> result == d
 
 //@ func PrependDecorators
 //@   props    C09 C02
@@ -973,7 +977,8 @@ package mpb
 
 //@ iface BarFiller.Fill
 //@   params   w stat
-//@   requires 0 <= stat.AvailableWidth
+//@   requires self != nil && w != nil
+//@   requires 0 <= stat.AvailableWidth && stat.AvailableWidth <= 1<<31 && stat.RequestedWidth <= 1<<31
 //@   modifies written(w), bFiller.tip, sFiller.count
 //@   ensures  fits: dw(written(w)) - old(dw(written(w))) <= max(0, stat.AvailableWidth) && dw(written(w)) >= old(dw(written(w)))
 
@@ -990,6 +995,7 @@ package mpb
 //@   requires s != nil && b != nil && tw >= 0 && tw <= 1<<31
 //@   assumes  drained: dw(written(s.buffers[0])) == 0 && dw(written(s.buffers[1])) == 0 && dw(written(s.buffers[2])) == 0
 //@   assumes  s.shutdown < 1<<62
+//@   assumes  widths: s.reqWidth <= 1<<31 // requested widths stay below 2^31 columns
 //@   ensures  oneframe@C15,C03: sent(b.frameCh) == old(sent(b.frameCh)) + 1 && lastSent(b.frameCh) != nil
 //@   ensures  terminal@C03,C18: lastSent(b.frameCh).err == nil && (s.aborted || s.completed())
 //@              ==> lastSent(b.frameCh).shutdown == old(s.shutdown) && s.shutdown == old(s.shutdown) + 1
@@ -1043,7 +1049,9 @@ package mpb
 //@   assumes  owner: !closed(b.bsOk)
 //@   requires forall(i, 0, len(bs.decorGroups[0]), bs.decorGroups[0][i] != nil) && forall(i, 0, len(bs.decorGroups[1]), bs.decorGroups[1][i] != nil)
 //@   ensures  published@C10,C02: b.bs == bs && closed(b.bsOk)
-//@   ensures  exclusive@C11: bs.aborted == !bs.completed()
+//@   ensures  exclusive@C11,C14: bs.aborted == !bs.completed()
+//@   ensures  settled@C11,C14: bs.aborted == !at(1, bs.completed()) // a bar that had not completed when its context ended is aborted; nothing else flips
+//@   ensures  untouched@C11,C14: bs.current == at(1, bs.current) && bs.total == at(1, bs.total) && bs.triggerComplete == at(1, bs.triggerComplete)
 //@   ensures  counted@C14: called("(*sync.WaitGroup).Done") == old(called("(*sync.WaitGroup).Done")) + 1
 
 // render: the frame function is either sent to the owner or, once the bar has shut down,
@@ -1070,8 +1078,8 @@ package mpb
 //@   assumes  s.reqWidth <= 1<<31
 //@   requires parked: forall(k, has(s.queueBars, k) ==> s.queueBars[k] != nil)
 //@   ensures  errdrop@C15: closed(s.iterDrop) ==> err != nil
-//@   ensures  once@C15,C02: err == nil ==> !closed(s.iterDrop)
-//@   ensures  open@C02: !closed(s.hm)
+//@   ensures  once: err == nil ==> !closed(s.iterDrop)
+//@   ensures  open: !closed(s.hm)
 //@   ensures  parkedstill: forall(k, has(s.queueBars, k) ==> s.queueBars[k] != nil)
 //@   ensures  requests@C05: called("(heapManager).sync") == old(called("(heapManager).sync")) + 1 && called("(heapManager).iter") == old(called("(heapManager).iter")) + 1
 //@              && calledWith("(heapManager).sync", 1) == s.iterDrop && calledWith("(heapManager).iter", 1) == s.iterDrop
@@ -1337,6 +1345,13 @@ package mpb
 //@   assumes  owner: !closed(done)
 //@   ensures  closed(done)
 
+// adapter from a user function to the interface: what it returns is the user's
+//@ func (barFillerBuilderFunc).Build
+//@   props    C02
+//@   trusted
+//@   modifies nothing
+//@   ensures  result != nil
+
 //@ iface BarFillerBuilder.Build
 //@   modifies nothing
 //@   ensures  result != nil
@@ -1389,17 +1404,17 @@ package mpb
 
 //@ func BarFillerOnComplete$1$1
 //@   props    C02 C03
-//@   requires w != nil && base != nil && st.AvailableWidth >= 0
+//@   requires w != nil && base != nil && st.AvailableWidth >= 0 && st.AvailableWidth <= 1<<31 && st.RequestedWidth <= 1<<31
 
 //@ func BarFillerOnAbort$1$1
 //@   props    C02 C03
-//@   requires w != nil && base != nil && st.AvailableWidth >= 0
+//@   requires w != nil && base != nil && st.AvailableWidth >= 0 && st.AvailableWidth <= 1<<31 && st.RequestedWidth <= 1<<31
 
 // extender closures (C15): on a filler error the buffer is reset and the rows are returned
 // with the error; otherwise the buffer ends empty
 //@ func makeExtenderFunc$1
 //@   props    C15 C02
-//@   requires filler != nil && buf != nil && stat.AvailableWidth >= 0
+//@   requires filler != nil && buf != nil && stat.AvailableWidth >= 0 && stat.AvailableWidth <= 1<<31 && stat.RequestedWidth <= 1<<31
 //@   ensures  onerror@C15: result1 != nil ==> dw(written(buf)) == 0 && result0 == rows
 //@   ensures  drained@C15: result1 == nil ==> dw(written(buf)) == 0
 
